@@ -153,13 +153,87 @@ def r_anchor(P, chk):
             pos = f.cfg.positions()
 
             def decide(first):
-                def d(t_):
-                    t2 = strip(t_)
-                    if t2 is not None and t2["k"] == "BinaryOperator" and t2["op"] in ("==", "!=") and ("->%s->size" % stack) in key(t2):
+                from .prog import reaching_defs
+
+                def cmp_value(t2):
+                    """truth of a first-use comparison (possibly wrapped in `? 1 : 0`) under the decision, else None"""
+                    t2 = strip(t2)
+                    if t2 is None:
+                        return None
+                    if t2["k"] == "BinaryOperator" and t2["op"] in ("==", "!=") and ("->%s->size" % stack) in key(t2):
                         same = not first            # `before == size` holds on re-use
                         return same if t2["op"] == "==" else not same
+                    if t2["k"] == "ConditionalOperator" and const_value(t2["c"][1]) is not None and const_value(t2["c"][2]) is not None:
+                        c0 = cmp_value(t2["c"][0])
+                        if c0 is not None:
+                            return bool(const_value(t2["c"][1])) if c0 else bool(const_value(t2["c"][2]))
+                    return None
+
+                def d(t_):
+                    t2 = strip(t_)
+                    v = cmp_value(t2)
+                    if v is not None:
+                        return v
+                    if t2 is not None and t2["k"] == "DeclRefExpr" and t2.get("dk") == "Var":
+                        # a flag that holds the outcome of the comparison at this point (all reaching definitions)
+                        rds = reaching_defs(f, t2["n"], t2)
+                        if rds:
+                            vals = {cmp_value(r) for r in rds}
+                            if None not in vals and len(vals) == 1:
+                                return vals.pop()
                     return None
                 return d
+            def feasible(node, dfun):
+                """Is the conjunction of the guards that enclose `node` (if / else-if chains) satisfiable once the first-use
+                comparison and its flag copies are decided?  Catches what block reachability cannot: `if (A && reuse) .. else if (A)`
+                - under "reuse" the second arm needs A and not-A."""
+                CONTRA = "contra"
+
+                def simp(e, want):
+                    e2 = strip(e)
+                    if e2 is None:
+                        return []
+                    v = dfun(e2)
+                    if v is not None:
+                        return [] if v == want else CONTRA
+                    if e2["k"] == "UnaryOperator" and e2["op"] == "!":
+                        return simp(e2["c"][0], not want)
+                    if e2["k"] == "BinaryOperator" and e2["op"] in ("&&", "||"):
+                        conj = (e2["op"] == "&&") == want          # both operands must take the value `want`
+                        a, b = e2["c"]
+                        if conj:
+                            ra, rb = simp(a, want), simp(b, want)
+                            if ra == CONTRA or rb == CONTRA:
+                                return CONTRA
+                            return ra + rb
+                        # one operand suffices: if the other is decided the wrong way round, this one must do it
+                        va, vb = dfun(strip(a)), dfun(strip(b))
+                        if va is not None and va != want:
+                            return simp(b, want)
+                        if vb is not None and vb != want:
+                            return simp(a, want)
+                        return []
+                    return [(key(e2).replace(" ", ""), want)]
+                lits = []
+                cur = node
+                for a in f.ancestors(node):
+                    if a["k"] == "IfStmt":
+                        pol = None
+                        if a["c"][1] is not None and any(x is cur for x in walk(a["c"][1])):
+                            pol = True
+                        elif len(a["c"]) > 2 and a["c"][2] is not None and any(x is cur for x in walk(a["c"][2])):
+                            pol = False
+                        if pol is not None:
+                            r = simp(a["c"][0], pol)
+                            if r == CONTRA:
+                                return False
+                            lits += r
+                    cur = a
+                seen = {}
+                for k2, p2 in lits:
+                    if seen.setdefault(k2, p2) != p2:
+                        return False
+                return True
             e_first, e_reuse = set(), set()
             b_first = edpe_blocks(f, "?none", 0, extra_decide=decide(True), edges_out=e_first)
             b_reuse = edpe_blocks(f, "?none", 0, extra_decide=decide(False), edges_out=e_reuse)
@@ -170,7 +244,7 @@ def r_anchor(P, chk):
 
             def escapes(edges, blocks):
                 """can the function be left from the href's block without printing an id of the family (pruned CFG)?"""
-                if hb is None or hb not in blocks:
+                if hb is None or hb not in blocks or not feasible(c, decide(True)):
                     return None               # the site does not run under this decision
                 if has_id:
                     return False
@@ -193,7 +267,7 @@ def r_anchor(P, chk):
             first_escape = escapes(e_first, b_first)
             # on re-use no id may be printed with this anchor: neither in the literal nor reachable before leaving
             reuse_bad = None
-            if hb is not None and hb in b_reuse:
+            if hb is not None and hb in b_reuse and feasible(c, decide(False)):
                 if has_id:
                     reuse_bad = True
                 else:
@@ -449,7 +523,7 @@ def r_anchor_seed(P, chk):
                     chk.violation(rid, "anchor:seed:%s:%s" % (f.name, key(x)), f.where(c),
                                   "the random anchor renaming in %s is applied to %s: %s - the id printed here cannot match the one "
                                   "printed where the renaming is applied once" % (f.name, key(x), bad))
-    chk.floor(rid, n, 2, "operands of the random anchor renaming")
+    chk.floor(rid, n, 1, "operands of the random anchor renaming")
 
 
 def _field_random(P, m):
